@@ -65,6 +65,9 @@ func vrtHarness_C20_threshold() {
 	r := qCtx.R()
 	vrtAtomic(func() { release = true })
 	vrtAssert("an answer is returned", vrtAnd(err == nil, r != nil))
+	// the slower worker finishes after the call has returned: it works on its own copy of the query context
+	vrtWaitQuiescent()
+	vrtAssert("the answer the caller was given is not replaced afterwards by a slower worker", qCtx.R() == r)
 	switch {
 	case !slow:
 		vrtCover("primary within the threshold", true)
